@@ -8,6 +8,7 @@ import NmVerif.Simd.OuterLemmas
 import NmVerif.Simd.BinaryLemmas
 import NmVerif.Simd.NdLemmas
 import NmVerif.Simd.AxisLemmas
+import NmVerif.Simd.OuterEvalLemmas
 /-
   C12 — SIMD evaluation equals scalar evaluation for every size, shape and layout.
   Only property statements (+ non-vacuity examples, counterexamples of known findings) live here.
@@ -712,6 +713,58 @@ theorem outer_covers_once (N : Nat) (hN : 0 < N) (lhs rhs pre : List Nat) (n : N
   simp only [Nat.sub_zero] at h
   rw [hsz, h, hsh, prod_snoc, ← List.range_eq_range']
 
+/-- **the lhs / rhs offsets of every enumerator step are the outer-product operands**: lane `j` of step `i` writes output cell
+    `o = out.off + j`; the (always broadcast) lhs element of the step is `lhs[o / |rhs|]` and the rhs element of that lane is
+    `rhs[o % |rhs|]` — NumPy `op.outer` on row-major buffers — for operands of any rank (rhs of rank ≥ 1), every last extent
+    (also not a multiple of `N`) and all three rank-dependent branches of `outer_simd` (`dim == 1`, `== 2`, general). -/
+theorem outer_operand_offsets (N : Nat) (hN : 0 < N) (lhs rhs : List Nat) (hposL : Pos lhs) (hposR : Pos rhs) (hne : rhs ≠ [])
+    (i : Nat) (hi : i < outerSize N (lhs ++ rhs) lhs rhs)
+    (j : Nat) (hj : j < outerLen N (outerAt N (lhs ++ rhs) lhs rhs i).1) :
+    (outerAt N (lhs ++ rhs) lhs rhs i).2.1.off = ((outerAt N (lhs ++ rhs) lhs rhs i).1.off + j) / prod rhs
+    ∧ (outerAt N (lhs ++ rhs) lhs rhs i).2.2.off + j = ((outerAt N (lhs ++ rhs) lhs rhs i).1.off + j) % prod rhs := by
+  obtain ⟨rpre, n, rfl⟩ : ∃ rpre n, rhs = rpre ++ [n] := ⟨rhs.dropLast, rhs.getLast hne, (List.dropLast_concat_getLast hne).symm⟩
+  have hposR' : Pos rpre := fun x hx => hposR x (by simp [hx])
+  have hsz : outerSize N (lhs ++ (rpre ++ [n])) lhs (rpre ++ [n]) = prod (lhs ++ rpre) * oCs N n := by
+    unfold outerSize
+    rw [outerSimdShape_eq N _ lhs (rpre ++ [n]) (lhs ++ rpre) n (by simp) (by simp), prod_snoc]
+  rw [hsz] at hi
+  exact outerAt_operand_lanes N hN lhs rpre n hposL hposR' i hi j hj
+
+/-- **SIMD outer = the scalar evaluator's outer product** `out[i ++ j] = f(a[i], b[j])`, at evaluator level: every lane count,
+    operands of any rank (`b` of rank ≥ 1) and any positive extents, row-major; the result is `some _`: no load or store
+    leaves a buffer. -/
+theorem simdOuter_eq_scalar (N : Nat) (hN : 0 < N) (packF : List α → List α → List β) (f : α → α → β)
+    (hpf : LaneWise2 N packF f) (a b : NDA α) (hwa : a.WF) (hwb : b.WF)
+    (hra : a.colMajor = false) (hrb : b.colMajor = false) (hsa : Pos a.shape) (hsb : Pos b.shape) (hne : b.shape ≠ [])
+    (out : List β) (ho : out.length = prod (a.shape ++ b.shape)) :
+    simdOuter N packF f a.data b.data (a.shape ++ b.shape) a.shape b.shape out = scalarOuter f a b := by
+  obtain ⟨rpre, n, hb⟩ : ∃ rpre n, b.shape = rpre ++ [n] :=
+    ⟨b.shape.dropLast, b.shape.getLast hne, (List.dropLast_concat_getLast hne).symm⟩
+  have hposR : Pos rpre := fun x hx => hsb x (by rw [hb]; simp [hx])
+  have hn : 0 < n := hsb n (by rw [hb]; simp)
+  have hY : b.data.length = prod rpre * n := by
+    have : b.data.length = prod b.shape := hwb
+    rw [this, hb, prod_snoc]
+  unfold scalarOuter
+  rw [logical_rowMajor a hwa hra hsa, logical_rowMajor b hwb hrb hsb]
+  rw [hb] at ho ⊢
+  exact simdOuter_eq_cells N hN packF f hpf a.data b.data a.shape rpre n hsa hposR hn hwa hY out
+    (by rw [ho, prod_append, prod_snoc])
+
+/-- … and with operands of either layout (`operator()`: any column-major operand → scalar evaluator) -/
+theorem simdEvalOuter_eq_scalar (N : Nat) (hN : 0 < N) (packF : List α → List α → List β) (f : α → α → β)
+    (hpf : LaneWise2 N packF f) (a b : NDA α) (hwa : a.WF) (hwb : b.WF)
+    (hsa : Pos a.shape) (hsb : Pos b.shape) (hne : b.shape ≠ [])
+    (out : List β) (ho : out.length = prod (a.shape ++ b.shape)) :
+    simdEvalOuter N packF f a b out = scalarOuter f a b := by
+  unfold simdEvalOuter
+  cases hca : a.colMajor with
+  | true => simp
+  | false =>
+    cases hcb : b.colMajor with
+    | true => simp
+    | false => simpa using simdOuter_eq_scalar N hN packF f hpf a b hwa hwb hca hcb hsa hsb hne out ho
+
 /-! ## eval_matmul: the inner enumerator -/
 
 /-- **the inner steps of every output element read its lhs row and its rhs column exactly once**: for output offset
@@ -775,5 +828,10 @@ example : simdReduceAxisK 2 (List.zipWith (· * ·)) (· * ·) (some (1 : Int)) 
     ∧ scalarReduceAxisK (· * ·) (⟨[2,3,2], false, [1,2,3,4,5,6,7,8,9,10,11,12]⟩ : NDA Int) 0 false = some [7,16,27,40,55,72]
     ∧ reduceOutShape [2,3,2] 0 false = [3,2] ∧ normOutShape [3,2] 0 false = [1,3,2] := by decide
 example : axisCell (· + ·) ([1,2,3,4,5,6,7,8,9,10,11,12] : List Int) 3 2 3 = some 30 := by decide
+example : simdOuter 4 (List.zipWith (· + ·)) (· + ·) [10,20] [1,2,3,4,5,6] [2,6] [2] [6] (List.replicate 12 (0 : Int))
+      = some [11,12,13,14,15,16,21,22,23,24,25,26]
+    ∧ scalarOuter (· + ·) (⟨[2], false, [10,20]⟩ : NDA Int) ⟨[6], false, [1,2,3,4,5,6]⟩ = some [11,12,13,14,15,16,21,22,23,24,25,26] := by decide
+example : (outerAt 4 [2,3,6] [2] [3,6] 9).1 = ⟨Tag.PAD 2, 28⟩ ∧ (outerAt 4 [2,3,6] [2] [3,6] 9).2.1.off = (28 + 1) / 18
+    ∧ (outerAt 4 [2,3,6] [2] [3,6] 9).2.2.off + 1 = (28 + 1) % 18 ∧ outerLen 4 (outerAt 4 [2,3,6] [2] [3,6] 9).1 = 2 := by decide
 
 end NmVerif.Props.C12
